@@ -324,7 +324,12 @@ def check_requirement(prog, sem, rq):
                 for lp in good:
                     for i in lp.walk():
                         if i.k == 'if' and i.c[2] is not None and i.c[3] is not None and any(x.k == 'throw' for x in i.c[3].walk()):
-                            guard |= accessors(i.c[2])
+                            # only the tests that ask the library whether the element exists (has* / find* of a nix:: class);
+                            # a local bookkeeping test (set insert for duplicates) says nothing about the later call
+                            asks = [c for c in i.c[2].walk() if c.k == 'call' and ((c.callee or {}).get('cls') or '').startswith('nix::') and
+                                    re.match(r'^(has|find|get)', (c.callee or {}).get('name') or '') and real_args(c)]
+                            if asks:
+                                guard |= accessors(i.c[2])
                 if not later:
                     return False, 'in %s no call of %s receives a key of the argument elements' % (f.q, rq['same_key_as'])
                 if not later <= guard:
